@@ -107,19 +107,15 @@ theorem get_congr_names (vs ws : List (String × Val)) (hn : vs.map (·.1) = ws.
 /-! ### one iteration of `copy_to` -/
 
 /-- one iteration of the loop of `copy_to` -/
-def stepEntry (cfg : Config) (ty : String) (d : StructDef) (top : Bool) (key : String) (dv : DVal) (st : St) : Except E St :=
+def stepEntry (cfg : Config) (d : StructDef) (top : Bool) (key : String) (dv : DVal) (st : St) : Except E St :=
   if top && key == "type" then .ok st
   else if endsWith key "_computed" then .error (.computedKey key)
   else
-    match classify cfg ty d key with
+    match classify d key with
     | .unknown => .error (.unknownKey key)
     | .readOnly => .error (.readOnlyKey key)
-    | .shadow =>
-      match dv with
-      | .list _ => .error (.notExtendable key)
-      | _ => .ok { st with sortShadowed := st.sortShadowed || key == "sort" }
-    | .member f hinted =>
-      match coerce cfg top hinted (slotOf f.kind) dv with
+    | .member f =>
+      match coerce cfg top true (slotOf f.kind) dv with
       | .error e => .error e
       | .ok cv => storeMember st f key cv
 
@@ -131,7 +127,7 @@ theorem copyEntries_nil (cfg : Config) (ty : String) (d : StructDef) (top : Bool
 theorem copyEntries_cons (cfg : Config) (ty : String) (d : StructDef) (top : Bool) (key : String) (dv : DVal)
     (rest : List (String × DVal)) (st : St) :
     copyEntries cfg ty d top ((key, dv) :: rest) st =
-      match stepEntry cfg ty d top key dv st with
+      match stepEntry cfg d top key dv st with
       | .error e => .error e
       | .ok st' => copyEntries cfg ty d top rest st' := by
   unfold stepEntry
@@ -139,21 +135,20 @@ theorem copyEntries_cons (cfg : Config) (ty : String) (d : StructDef) (top : Boo
   · cases dv <;> simp [copyEntries, h1]
   · by_cases h2 : endsWith key "_computed" = true
     · cases dv <;> simp [copyEntries, h1, h2]
-    · cases hc : classify cfg ty d key with
+    · cases hc : classify d key with
       | unknown => cases dv <;> simp [copyEntries, h1, h2, hc]
       | readOnly => cases dv <;> simp [copyEntries, h1, h2, hc]
-      | shadow => cases dv <;> simp [copyEntries, h1, h2, hc]
-      | member f hinted =>
-        cases hco : coerce cfg top hinted (slotOf f.kind) dv with
+      | member f =>
+        cases hco : coerce cfg top true (slotOf f.kind) dv with
         | error e => cases dv <;> simp [copyEntries, h1, h2, hc, hco]
         | ok cv =>
           cases hs : storeMember st f key cv <;> cases dv <;> simp [copyEntries, h1, h2, hc, hco, hs]
 
-/-- the member a descriptor key writes to (`none`: the key is skipped, refused, or hits a non-member attribute) -/
-def targetOf (cfg : Config) (ty : String) (d : StructDef) (top : Bool) (key : String) : Option String :=
+/-- the member a descriptor key writes to (`none`: the key is skipped or refused) -/
+def targetOf (d : StructDef) (top : Bool) (key : String) : Option String :=
   if top && key == "type" then none
-  else match classify cfg ty d key with
-    | .member f _ => some f.name
+  else match classify d key with
+    | .member f => some f.name
     | _ => none
 
 /-- what a member holds after `setattr` / `extend` with the coerced value `cv` -/
@@ -163,7 +158,7 @@ def stored (old : Option Val) (cv : Val) : Val :=
   | v, _ => v
 
 theorem storeMember_ok {st st1 : St} {f : Field} {key : String} {cv : Val} (h : storeMember st f key cv = .ok st1) :
-    st1.vs = assign st.vs f.name (stored (Val.get st.vs f.name) cv) ∧ st1.sortShadowed = st.sortShadowed := by
+    st1.vs = assign st.vs f.name (stored (Val.get st.vs f.name) cv) := by
   unfold storeMember at h
   cases cv with
   | arr l =>
@@ -179,8 +174,8 @@ theorem storeMember_ok {st st1 : St} {f : Field} {key : String} {cv : Val} (h : 
   | struct t fs => simp only [Except.ok.injEq] at h; subst h; simp [stored]
   | none => simp only [Except.ok.injEq] at h; subst h; simp [stored]
 
-theorem stepEntry_untargeted {cfg : Config} {ty : String} {d : StructDef} {top : Bool} {key : String} {dv : DVal}
-    {st st1 : St} (h : stepEntry cfg ty d top key dv st = .ok st1) (ht : targetOf cfg ty d top key = none) :
+theorem stepEntry_untargeted {cfg : Config} {d : StructDef} {top : Bool} {key : String} {dv : DVal}
+    {st st1 : St} (h : stepEntry cfg d top key dv st = .ok st1) (ht : targetOf d top key = none) :
     st1.vs = st.vs := by
   unfold stepEntry at h
   unfold targetOf at ht
@@ -190,38 +185,35 @@ theorem stepEntry_untargeted {cfg : Config} {ty : String} {d : StructDef} {top :
     by_cases h2 : endsWith key "_computed" = true
     · simp [h2] at h
     · simp only [h2, Bool.false_eq_true, if_false] at h
-      cases hc : classify cfg ty d key with
+      cases hc : classify d key with
       | unknown => simp [hc] at h
       | readOnly => simp [hc] at h
-      | shadow =>
-        simp only [hc] at h
-        cases dv <;> simp at h <;> (subst h; rfl)
-      | member f hinted => simp [hc] at ht
+      | member f => simp [hc] at ht
 
-theorem stepEntry_targeted {cfg : Config} {ty : String} {d : StructDef} {top : Bool} {key : String} {dv : DVal}
-    {st st1 : St} {f : Field} {hinted : Bool} (h : stepEntry cfg ty d top key dv st = .ok st1)
-    (hk : (top && key == "type") = false) (hc : classify cfg ty d key = .member f hinted) :
-    ∃ cv, coerce cfg top hinted (slotOf f.kind) dv = .ok cv ∧
+theorem stepEntry_targeted {cfg : Config} {d : StructDef} {top : Bool} {key : String} {dv : DVal}
+    {st st1 : St} {f : Field} (h : stepEntry cfg d top key dv st = .ok st1)
+    (hk : (top && key == "type") = false) (hc : classify d key = .member f) :
+    ∃ cv, coerce cfg top true (slotOf f.kind) dv = .ok cv ∧
       st1.vs = assign st.vs f.name (stored (Val.get st.vs f.name) cv) := by
   unfold stepEntry at h
   simp only [hk, Bool.false_eq_true, if_false] at h
   by_cases h2 : endsWith key "_computed" = true
   · simp [h2] at h
   · simp only [h2, Bool.false_eq_true, if_false, hc] at h
-    cases hco : coerce cfg top hinted (slotOf f.kind) dv with
+    cases hco : coerce cfg top true (slotOf f.kind) dv with
     | error e => simp [hco] at h
     | ok cv =>
       simp only [hco] at h
-      exact ⟨cv, rfl, (storeMember_ok h).1⟩
+      exact ⟨cv, rfl, storeMember_ok h⟩
 
-theorem targetOf_of_member {cfg : Config} {ty : String} {d : StructDef} {top : Bool} {key : String} {f : Field} {hinted : Bool}
-    (hk : (top && key == "type") = false) (hc : classify cfg ty d key = .member f hinted) :
-    targetOf cfg ty d top key = some f.name := by
+theorem targetOf_of_member {d : StructDef} {top : Bool} {key : String} {f : Field}
+    (hk : (top && key == "type") = false) (hc : classify d key = .member f) :
+    targetOf d top key = some f.name := by
   simp [targetOf, hk, hc]
 
-theorem stepEntry_names {cfg : Config} {ty : String} {d : StructDef} {top : Bool} {key : String} {dv : DVal}
-    {st st1 : St} (h : stepEntry cfg ty d top key dv st = .ok st1) : st1.vs.map (·.1) = st.vs.map (·.1) := by
-  cases ht : targetOf cfg ty d top key with
+theorem stepEntry_names {cfg : Config} {d : StructDef} {top : Bool} {key : String} {dv : DVal}
+    {st st1 : St} (h : stepEntry cfg d top key dv st = .ok st1) : st1.vs.map (·.1) = st.vs.map (·.1) := by
+  cases ht : targetOf d top key with
   | none => rw [stepEntry_untargeted h ht]
   | some n =>
     unfold targetOf at ht
@@ -229,18 +221,17 @@ theorem stepEntry_names {cfg : Config} {ty : String} {d : StructDef} {top : Bool
     · simp [h1] at ht
     · have hk : (top && key == "type") = false := by simpa using h1
       simp only [hk, Bool.false_eq_true, if_false] at ht
-      cases hc : classify cfg ty d key with
-      | member f hinted =>
+      cases hc : classify d key with
+      | member f =>
         obtain ⟨cv, -, hvs⟩ := stepEntry_targeted h hk hc
         rw [hvs, names_assign]
       | unknown => simp [hc] at ht
       | readOnly => simp [hc] at ht
-      | shadow => simp [hc] at ht
 
-theorem stepEntry_other {cfg : Config} {ty : String} {d : StructDef} {top : Bool} {key : String} {dv : DVal}
-    {st st1 : St} (h : stepEntry cfg ty d top key dv st = .ok st1) (n : String)
-    (hn : targetOf cfg ty d top key ≠ some n) : Val.get st1.vs n = Val.get st.vs n := by
-  cases ht : targetOf cfg ty d top key with
+theorem stepEntry_other {cfg : Config} {d : StructDef} {top : Bool} {key : String} {dv : DVal}
+    {st st1 : St} (h : stepEntry cfg d top key dv st = .ok st1) (n : String)
+    (hn : targetOf d top key ≠ some n) : Val.get st1.vs n = Val.get st.vs n := by
+  cases ht : targetOf d top key with
   | none => rw [stepEntry_untargeted h ht]
   | some m =>
     have hmn : n ≠ m := by
@@ -250,14 +241,13 @@ theorem stepEntry_other {cfg : Config} {ty : String} {d : StructDef} {top : Bool
     · simp [h1] at ht
     · have hk : (top && key == "type") = false := by simpa using h1
       simp only [hk, Bool.false_eq_true, if_false] at ht
-      cases hc : classify cfg ty d key with
-      | member f hinted =>
+      cases hc : classify d key with
+      | member f =>
         obtain ⟨cv, -, hvs⟩ := stepEntry_targeted h hk hc
         simp only [hc, Option.some.injEq] at ht
         rw [hvs, get_assign_ne _ _ _ _ (ht ▸ hmn)]
       | unknown => simp [hc] at ht
       | readOnly => simp [hc] at ht
-      | shadow => simp [hc] at ht
 
 /-! ### the loop -/
 
@@ -268,7 +258,7 @@ theorem copyEntries_names {cfg : Config} {ty : String} {d : StructDef} {top : Bo
   | cons kv rest ih =>
     obtain ⟨key, dv⟩ := kv
     rw [copyEntries_cons] at h
-    cases hs : stepEntry cfg ty d top key dv st with
+    cases hs : stepEntry cfg d top key dv st with
     | error e => simp [hs] at h
     | ok st1 =>
       simp only [hs] at h
@@ -277,13 +267,13 @@ theorem copyEntries_names {cfg : Config} {ty : String} {d : StructDef} {top : Bo
 /-- a member no key of the descriptor writes to keeps its value -/
 theorem copyEntries_untouched {cfg : Config} {ty : String} {d : StructDef} {top : Bool} (kvs : List (String × DVal))
     {st st' : St} (h : copyEntries cfg ty d top kvs st = .ok st') (n : String)
-    (hn : ∀ kv ∈ kvs, targetOf cfg ty d top kv.1 ≠ some n) : Val.get st'.vs n = Val.get st.vs n := by
+    (hn : ∀ kv ∈ kvs, targetOf d top kv.1 ≠ some n) : Val.get st'.vs n = Val.get st.vs n := by
   induction kvs generalizing st with
   | nil => rw [copyEntries_nil] at h; cases h; rfl
   | cons kv rest ih =>
     obtain ⟨key, dv⟩ := kv
     rw [copyEntries_cons] at h
-    cases hs : stepEntry cfg ty d top key dv st with
+    cases hs : stepEntry cfg d top key dv st with
     | error e => simp [hs] at h
     | ok st1 =>
       simp only [hs] at h
@@ -291,19 +281,19 @@ theorem copyEntries_untouched {cfg : Config} {ty : String} {d : StructDef} {top 
 
 /-- a member exactly one key of the descriptor writes to holds the coerced value of that entry -/
 theorem copyEntries_described {cfg : Config} {ty : String} {d : StructDef} {top : Bool}
-    (pre post : List (String × DVal)) (key : String) (dv : DVal) {st st' : St} {f : Field} {hinted : Bool}
+    (pre post : List (String × DVal)) (key : String) (dv : DVal) {st st' : St} {f : Field}
     (h : copyEntries cfg ty d top (pre ++ (key, dv) :: post) st = .ok st')
-    (hk : (top && key == "type") = false) (hc : classify cfg ty d key = .member f hinted)
-    (hpre : ∀ kv ∈ pre, targetOf cfg ty d top kv.1 ≠ some f.name)
-    (hpost : ∀ kv ∈ post, targetOf cfg ty d top kv.1 ≠ some f.name)
+    (hk : (top && key == "type") = false) (hc : classify d key = .member f)
+    (hpre : ∀ kv ∈ pre, targetOf d top kv.1 ≠ some f.name)
+    (hpost : ∀ kv ∈ post, targetOf d top kv.1 ≠ some f.name)
     (hmem : f.name ∈ st.vs.map (·.1)) :
-    ∃ cv, coerce cfg top hinted (slotOf f.kind) dv = .ok cv ∧
+    ∃ cv, coerce cfg top true (slotOf f.kind) dv = .ok cv ∧
       Val.get st'.vs f.name = some (stored (Val.get st.vs f.name) cv) := by
   induction pre generalizing st with
   | nil =>
     simp only [List.nil_append] at h
     rw [copyEntries_cons] at h
-    cases hs : stepEntry cfg ty d top key dv st with
+    cases hs : stepEntry cfg d top key dv st with
     | error e => simp [hs] at h
     | ok st1 =>
       simp only [hs] at h
@@ -314,7 +304,7 @@ theorem copyEntries_described {cfg : Config} {ty : String} {d : StructDef} {top 
     obtain ⟨k0, dv0⟩ := kv
     simp only [List.cons_append] at h
     rw [copyEntries_cons] at h
-    cases hs : stepEntry cfg ty d top k0 dv0 st with
+    cases hs : stepEntry cfg d top k0 dv0 st with
     | error e => simp [hs] at h
     | ok st1 =>
       simp only [hs] at h
@@ -327,7 +317,7 @@ theorem copyEntries_described {cfg : Config} {ty : String} {d : StructDef} {top 
 /-- an entry that `copy_to` refuses in every state makes the whole descriptor fail -/
 theorem copyEntries_error_of_bad {cfg : Config} {ty : String} {d : StructDef} {top : Bool} (kvs : List (String × DVal))
     (key : String) (dv : DVal) (hmem : (key, dv) ∈ kvs)
-    (hbad : ∀ st, ∃ e, stepEntry cfg ty d top key dv st = .error e) :
+    (hbad : ∀ st, ∃ e, stepEntry cfg d top key dv st = .error e) :
     ∀ st, ∃ e, copyEntries cfg ty d top kvs st = .error e := by
   induction kvs with
   | nil => cases hmem
@@ -335,7 +325,7 @@ theorem copyEntries_error_of_bad {cfg : Config} {ty : String} {d : StructDef} {t
     intro st
     obtain ⟨k0, dv0⟩ := kv
     rw [copyEntries_cons]
-    cases hs : stepEntry cfg ty d top k0 dv0 st with
+    cases hs : stepEntry cfg d top k0 dv0 st with
     | error e => exact ⟨e, rfl⟩
     | ok st1 =>
       simp only
@@ -616,8 +606,6 @@ theorem finish_ok {p : Prims} {cfg : Config} {autosort : Bool} {ty : String} {d 
       (if cfg.idAutofill then autofillIds p cfg vs1 else .ok vs1) = .ok vs2 ∧
       v = .struct ty vs2 := by
   unfold finish at h
-  split at h
-  · cases h
   · cases h0 : (if cfg.messageHack then messageHack cfg st.vs else .ok st.vs) with
     | error e => simp [h0] at h
     | ok vs0 =>
@@ -731,20 +719,16 @@ theorem freshMembers_names {S : Schema} {ty : String} {d : StructDef} {fresh : L
   rw [names_assignAll]
   simp [List.map_map, Function.comp]
 
-theorem classify_member_mem {cfg : Config} {ty : String} {d : StructDef} {key : String} {f : Field} {hinted : Bool}
-    (h : classify cfg ty d key = .member f hinted) : f ∈ carrying d := by
+theorem classify_member_mem {d : StructDef} {key : String} {f : Field}
+    (h : classify d key = .member f) : f ∈ carrying d := by
   unfold classify at h
   split at h
-  · rename_i g hg
-    cases h
-    exact List.mem_of_find?_eq_some hg
+  · cases h
   · split at h
     · rename_i g hg
       cases h
       exact List.mem_of_find?_eq_some hg
-    · split at h
-      · cases h
-      · split at h <;> cases h
+    · split at h <;> cases h
 
 theorem create_ok {p : Prims} {cfg : Config} {autosort embedded : Bool} {desc : List (String × DVal)} {v : Val}
     (h : create p cfg autosort embedded desc = .ok v) :
@@ -771,39 +755,32 @@ theorem create_ok {p : Prims} {cfg : Config} {autosort embedded : Bool} {desc : 
 
 /-! ### which keys write to a member -/
 
-theorem classify_member_key {cfg : Config} {ty : String} {d : StructDef} {key : String} {f : Field} {hinted : Bool}
-    (h : classify cfg ty d key = .member f hinted) :
-    (hinted = true ∧ key = fixName f.name) ∨ (hinted = false ∧ key = "_" ++ fixName f.name) := by
+/-- the only key that writes to a member is the member's (printer) name -/
+theorem classify_member_key {d : StructDef} {key : String} {f : Field}
+    (h : classify d key = .member f) : key = fixName f.name ∧ startsWithUnderscore key = false := by
   unfold classify at h
   split at h
-  · rename_i g hg
-    cases h
-    have := List.find?_some hg
-    left; exact ⟨rfl, (by simpa using this : fixName f.name = key).symm⟩
-  · split at h
+  · cases h
+  · rename_i hu
+    split at h
     · rename_i g hg
       cases h
       have := List.find?_some hg
-      right; exact ⟨rfl, (by simpa using this : "_" ++ fixName f.name = key).symm⟩
-    · split at h
-      · cases h
-      · split at h <;> cases h
+      exact ⟨(by simpa using this : fixName f.name = key).symm, by simpa using hu⟩
+    · split at h <;> cases h
 
-theorem targetOf_keys {cfg : Config} {ty : String} {d : StructDef} {top : Bool} {key n : String}
-    (h : targetOf cfg ty d top key = some n) : key = fixName n ∨ key = "_" ++ fixName n := by
+theorem targetOf_keys {d : StructDef} {top : Bool} {key n : String}
+    (h : targetOf d top key = some n) : key = fixName n := by
   unfold targetOf at h
   split at h
   · cases h
-  · cases hc : classify cfg ty d key with
-    | member f hinted =>
+  · cases hc : classify d key with
+    | member f =>
       simp only [hc, Option.some.injEq] at h
       subst h
-      rcases classify_member_key hc with ⟨-, hk⟩ | ⟨-, hk⟩
-      · left; exact hk
-      · right; exact hk
+      exact (classify_member_key hc).1
     | unknown => simp [hc] at h
     | readOnly => simp [hc] at h
-    | shadow => simp [hc] at h
 
 /-! ### the processed descriptor -/
 
@@ -1141,7 +1118,7 @@ theorem coerce_enum_int_ok {cfg : Config} {top : Bool} {ety : String} {w : Nat} 
 theorem create_error_of_bad_entry {p : Prims} {cfg : Config} {autosort embedded : Bool} {desc : List (String × DVal)}
     (key : String) (dv : DVal) (hmem : (key, dv) ∈ withNetwork cfg desc)
     (hbad : ∀ ty d, resolve cfg embedded (withNetwork cfg desc) = .ok (ty, d) →
-      ∀ st, ∃ e, stepEntry cfg ty d true key dv st = .error e) :
+      ∀ st, ∃ e, stepEntry cfg d true key dv st = .error e) :
     ∃ e, create p cfg autosort embedded desc = .error e := by
   unfold create build
   cases hr : resolve cfg embedded (withNetwork cfg desc) with
@@ -1157,56 +1134,53 @@ theorem create_error_of_bad_entry {p : Prims} {cfg : Config} {autosort embedded 
       rw [he]
       exact ⟨e, rfl⟩
 
-
-theorem stepEntry_unknown {cfg : Config} {ty : String} {d : StructDef} {key : String} {dv : DVal}
-    (hk : key ≠ "type") (hu : classify cfg ty d key = .unknown) :
-    ∀ st, ∃ e, stepEntry cfg ty d true key dv st = .error e := by
+theorem stepEntry_unknown {cfg : Config} {d : StructDef} {key : String} {dv : DVal}
+    (hk : key ≠ "type") (hu : classify d key = .unknown) :
+    ∀ st, ∃ e, stepEntry cfg d true key dv st = .error e := by
   intro st
   unfold stepEntry
   have : (true && key == "type") = false := by simpa using hk
   simp only [this, Bool.false_eq_true, if_false, hu]
   split <;> exact ⟨_, rfl⟩
 
-
-theorem stepEntry_coerce_error {cfg : Config} {ty : String} {d : StructDef} {key : String} {dv : DVal} {f : Field}
-    {hinted : Bool} {e0 : E} (hk : key ≠ "type") (hc : classify cfg ty d key = .member f hinted)
-    (he : coerce cfg true hinted (slotOf f.kind) dv = .error e0) :
-    ∀ st, ∃ e, stepEntry cfg ty d true key dv st = .error e := by
+theorem stepEntry_coerce_error {cfg : Config} {d : StructDef} {key : String} {dv : DVal} {f : Field}
+    {e0 : E} (hk : key ≠ "type") (hc : classify d key = .member f)
+    (he : coerce cfg true true (slotOf f.kind) dv = .error e0) :
+    ∀ st, ∃ e, stepEntry cfg d true key dv st = .error e := by
   intro st
   unfold stepEntry
   have : (true && key == "type") = false := by simpa using hk
   simp only [this, Bool.false_eq_true, if_false, hc, he]
   split <;> exact ⟨_, rfl⟩
 
-
-/-- a key for which `hasattr(instance, key)` is false -/
-theorem classify_unknown_of_not_attr {cfg : Config} {ty : String} {d : StructDef} {key : String}
-    (h : key ∉ attrNames cfg ty d) : classify cfg ty d key = .unknown := by
-  unfold attrNames at h
+/-- a key that is not the name of a property of the class -/
+theorem classify_unknown_of_not_property {d : StructDef} {key : String}
+    (h : key ∉ propertyNames d) : classify d key = .unknown := by
+  unfold propertyNames at h
   simp only [List.mem_append, not_or] at h
-  obtain ⟨⟨⟨h1, h2⟩, h3⟩, h4⟩ := h
+  obtain ⟨⟨h1, h2⟩, h3⟩ := h
   unfold classify
   split
-  · rename_i f hf
-    exfalso; apply h1
-    rw [List.mem_map]
-    exact ⟨f, List.mem_of_find?_eq_some hf, by simpa using List.find?_some hf⟩
+  · rfl
   · split
     · rename_i f hf
-      exfalso; apply h2
+      exfalso; apply h1
       rw [List.mem_map]
       exact ⟨f, List.mem_of_find?_eq_some hf, by simpa using List.find?_some hf⟩
     · split
       · rename_i hsz
-        exfalso; apply h3
-        have : key = "size" := by simpa using hsz
-        simp [this]
-      · split
-        · rename_i hc
-          exfalso; apply h4
-          simpa using hc
-        · rfl
+        exfalso
+        simp only [Bool.or_eq_true, beq_iff_eq, List.contains_eq_mem, decide_eq_true_eq] at hsz
+        rcases hsz with hs | hs
+        · apply h2; simp [hs]
+        · exact h3 hs
+      · rfl
 
+/-- a key that starts with an underscore (private attributes, dunder names) -/
+theorem classify_unknown_of_underscore {d : StructDef} {key : String}
+    (h : startsWithUnderscore key = true) : classify d key = .unknown := by
+  unfold classify
+  simp [h]
 
 theorem inRange_unsigned_iff (w : Nat) (i : Int) : inRange w false i = true ↔ 0 ≤ i ∧ i < ((256 ^ w : Nat) : Int) := by
   simp [inRange]
